@@ -8,6 +8,7 @@
 use vstd::prelude::*;
 use std::collections::{HashMap, HashSet};
 verus!{
+//@include common/std_extra.rs
 broadcast use vstd::std_specs::iter::group_iter_axioms;
 // =====================================================================
 // prelude (assumed / stand-ins for what is not extracted)
@@ -363,7 +364,7 @@ impl GraphStore {
 //@requires
         txn_wf(*old(self)),
         old(self).current_version < u64::MAX,
-//@closure 1 () -> (e: GraphError) ensures e == (@BODY)
+//@closure ok_or_else#1 () -> (e: GraphError) ensures e == (@BODY)
 //@ensures
         !old(self).active_transactions@.contains_key(txn_id) ==>
             r == Err::<u64, GraphError>(GraphError::TransactionNotFound(txn_id)),                                  //#unknown_is_not_found
@@ -465,7 +466,7 @@ impl GraphStore {
         final(self).current_version == old(self).current_version && final(self).next_txn_id == old(self).next_txn_id
             && commits_unchanged(*old(self), *final(self)),                                                        //#version_frame
         txn_wf(*final(self)),                                                                                      //#keeps_wf
-//@closure 1 () -> (e: GraphError) ensures e == (@BODY)
+//@closure ok_or_else#1 () -> (e: GraphError) ensures e == (@BODY)
 //@before "let txn = self.active_transactions"
         proof { axiom_nodeid_key_model(); axiom_edgeid_key_model(); }
 //@end
